@@ -1,5 +1,5 @@
 (* PropC08.v — property C08: typed remapping keeps every element and agrees with the text API. *)
-From PG Require Import Base Spec Stacktrace RemapProofs StacktraceRoundtrip BridgeC08.
+From PG Require Import Base Spec Stacktrace RemapProofs StacktraceRoundtrip BridgeC08 Iterative.
 
 Theorem C08_same_depth : forall rc rf t, depth (remap_typed rc rf t) = depth t.
 Proof. exact C08_depth. Qed.
@@ -26,6 +26,15 @@ Proof. exact C08_print_b. Qed.
 Theorem C08_typed_print_is_text_wf : forall t, wf_trace_nocr t = true -> forall rc rf,
   print_trace (remap_typed rc rf t) = remap_text rc rf (print_trace t).
 Proof. exact C08_print_wf. Qed.
+
+(* the code as written since fix 5c75dfb: collect the levels of the cause chain in a loop, remap each level
+   on its own, rebuild the chain from the innermost level; `unwrap` of the rebuilt chain never fails.
+   The loop is the recursive model function, for every trace of every depth. *)
+Theorem C08_iterative_code : forall rc rf t, remap_typed_iter rc rf t = Some (remap_typed rc rf t).
+Proof. exact remap_typed_iter_correct. Qed.
+Theorem C08_levels_preserved : forall rc rf t,
+  levels (remap_typed rc rf t) = map (remap_level rc rf) (levels t).
+Proof. exact levels_remap_typed. Qed.
 
 Check C08_same_depth : forall rc rf t, depth (remap_typed rc rf t) = depth t.
 Check C08_typed_print_is_text : forall rc rf t,
